@@ -100,7 +100,7 @@ PROPS = {
             'gzip/deflate/zstd coders are inverses of their decoders (flate2/zstd FFI): axioms A-compress-01/04; that compress()/decompress() call the coder NAMED by the encoding and append exactly its output is proved on the real bodies (unit compression)',
             'prost encode/decode satisfy the codec contracts A-codec-01..04 (decode reads the whole payload, never Ok(None); encode appends exactly ser(item))',
             'buffer_size only affects reserve() arguments; capacity is not part of the BytesMut view (A-bytes-reserve)',
-            'the composition "encoder trace then decoder trace" is stated per call (enc_step / M1,P1,N1 step clauses) plus the spec-level lemmas lemma_parse_wire and lemma_parse_append; the induction over whole poll traces is not yet mechanised',
+            'whole-stream statements are mechanised as inductions over arbitrary finite poll histories whose step relation is the proved postcondition of the real function: lemma_enc_schedule_independent (emitted chunks == wire image of the items consumed, whatever the batching / readiness) and lemma_dec_chunking_independent (bytes received == frames of the messages handed out ++ still unparsed, each message the decoding of its frame, whatever the chunking); the final composition encoder-then-decoder additionally needs the codec to be an inverse pair (assumed, codec side) and is stated at spec level only (lemma_parse_wire, lemma_parse_append)',
         ]),
     'C03': dict(
         witness=[dict(append_to='tonic/src/codec/encode.rs', module='replay/encode_witness.rs', crate='tonic', filter='verif_witness_encode', features=['--features', 'gzip,deflate,zstd'])],
